@@ -480,3 +480,29 @@ def end_stats_iadd_hist(c):
     c.ensures(every_cell_is_the_sum_of_the_two_cells="sum_of_cells(self.errors, old(self.errors), other.errors)")
     c.mutant("self.errors[length][errors] += other.errors[length][errors]", "self.errors[length][errors] = other.errors[length][errors]")
     c.mutant("self.errors[length][errors] += other.errors[length][errors]", "self.errors[errors][length] += other.errors[length][errors]")
+
+
+# ------------------------------------------------------------------------------ ReadLengthStatistics.__iadd__
+RLStatsT = ObjT("ReadLengthStatistics", _written_lengths1=CountDictT(), _written_lengths2=CountDictT())
+
+
+@contract("statistics.py", "ReadLengthStatistics.__iadd__", props=["C06", "C04"])
+def read_length_statistics_iadd(c):
+    """merging the histograms of written read lengths of two chunks: for R1 and for R2 every length is listed with the sum
+    of its two counts (so the written-reads and written-bases figures of the report add up over the chunks)"""
+    c.types(self=RLStatsT, other=RLStatsT)
+    c.returns(RLStatsT)
+    c.modifies = ["self"]
+    c.spec(stats_spec)
+    c.inline.update({"ReadLengthStatistics.written_lengths"})
+    c.loop(1, head="for length, count in written_lengths1.items()",
+           inv=["0 <= __k1 <= nkeys(other._written_lengths1)",
+                "merged_upto(self._written_lengths1, old(self._written_lengths1), other._written_lengths1, __k1)",
+                "merged_upto(self._written_lengths2, old(self._written_lengths2), other._written_lengths2, 0)"])
+    c.loop(2, head="for length, count in written_lengths2.items()",
+           inv=["0 <= __k2 <= nkeys(other._written_lengths2)",
+                "merged_upto(self._written_lengths1, old(self._written_lengths1), other._written_lengths1, nkeys(other._written_lengths1))",
+                "merged_upto(self._written_lengths2, old(self._written_lengths2), other._written_lengths2, __k2)"])
+    c.ensures(read_1_lengths_add_up="merged_upto(self._written_lengths1, old(self._written_lengths1), other._written_lengths1, nkeys(other._written_lengths1))",
+              read_2_lengths_add_up="merged_upto(self._written_lengths2, old(self._written_lengths2), other._written_lengths2, nkeys(other._written_lengths2))")
+    c.mutant("self._written_lengths2[length] += count", "self._written_lengths1[length] += count")
